@@ -91,17 +91,17 @@ def call_cases(tier):
     for n in (0, 1, 2, 3):
         pool = ARGS if n < 3 else ARGS[:8]
         for combo in itertools.product(pool, repeat=n):
-            for sep in (', ', ','):
+            for sep, callsp in ((', ', ''), (',', ''), (', ', ' '), (', ', '\n'), (', ', '  ')):
                 for ctx in ('select {F} from t', 'select 1 from t where {F} > 1', 'select x, {F} as y from t',
                             'select {F} over (partition by b) from t', 'select {F} over w as y from t',
                             'select {F} over (order by a, b) z, c from t'):
-                    call = 'f(' + sep.join(combo) + ')'
+                    call = 'f' + callsp + '(' + sep.join(combo) + ')'
                     kinds = sorted({_argkind(a) for a in combo})
                     node = call
                     if ' over ' in ctx:
                         node = call + ctx[ctx.index(' over '):].split(' as ')[0].split(' z,')[0].split(' from')[0]
                     yield {'sub': 'call', 'text': ctx.format(F=call), 'call': node, 'expect': list(combo),
-                           'cube': f'n={n}|kinds={",".join(kinds) or "-"}|over={"yes" if " over " in ctx else "no"}'}
+                           'cube': f'n={n}|kinds={",".join(kinds) or "-"}|over={"yes" if " over " in ctx else "no"}|sp={len(callsp)}'}
                 if n < 2:
                     break
     yield {'sub': 'call', 'text': 'select count(*) from t', 'call': 'count(*)', 'expect': ['*'], 'cube': 'n=1|kinds=star'}
